@@ -937,7 +937,7 @@ def adapt_function(text, where, subs, report):
         ads.append({"rule": "D4", "what": f"ghost block {side} `{anchor}`"})
 
     # loops (D3): ordinal among for/while/loop keywords of the body, in source order
-    loops = [sd for sd in subs if sd["kw"] == "loop"]
+    loops = [sd for sd in subs if sd["kw"] in ("loop", "endloop")]
     if loops:
         fnk, name, po, pc, body = fn_parts(ft)
         sig = ft.sig
@@ -956,6 +956,21 @@ def adapt_function(text, where, subs, report):
             n = int(la[0])
             if n < 1 or n > len(idx):
                 raise ExtractError("lost-anchor", f"{where}: loop {n} not found ({len(idx)} loops)")
+            if sd["kw"] == "endloop":
+                # D4: ghost block right after the closing brace of loop n (inside the D17 block, where the hoisted temporary is in scope)
+                k = idx[n - 1] + 1
+                if sig[idx[n - 1]].text == "for":
+                    while not (sig[k].kind == "ident" and sig[k].text == "in"):
+                        if sig[k].text in OPEN:
+                            k = match_close(sig, k)
+                        k += 1
+                while sig[k].text != "{":
+                    if sig[k].text in "([":
+                        k = match_close(sig, k)
+                    k += 1
+                ft.edits.append((sig[match_close(sig, k)].e, 0, "\n" + sd["text"].strip() + "\n"))
+                ads.append({"rule": "D4", "what": f"ghost block after loop {n}"})
+                continue
             if len(la) == 3 and la[1] == "as":
                 # name the ghost iterator: `for PAT in EXPR` -> `for PAT in NAME: EXPR`
                 if sig[idx[n - 1]].text != "for":
@@ -1086,7 +1101,7 @@ def extract_fragment(src, body, end, where, subs, rep):
         for pos, dl in sorted(edits, key=lambda x: -x[0]):
             txt = txt[:pos] + txt[pos + dl:]
         rep["adaptations"].append({"rule": "D9", "what": f"{n} print!/println! call(s) dropped"})
-    rest = [d for d in subs if d["kw"] in ("loop", "hint", "closure", "fmt")]
+    rest = [d for d in subs if d["kw"] in ("loop", "endloop", "hint", "closure", "fmt")]
     wrapped = "fn __fragment() {\n" + txt + "\n}"
     wrapped = adapt_function(wrapped, where, rest, rep)
     i0 = wrapped.index("{") + 1
